@@ -192,7 +192,8 @@ def _run(tape, out, elfi, root):
             op = 'run'
         else:
             op = tape.choice('op', ['run', 'rerun_same', 'rerun_larger', 'rerun_smaller',
-                                    'remove_store', 'replace_node', 'reopen', 'run'] +
+                                    'remove_store', 'replace_node', 'reopen', 'run',
+                                    'remove_last_batch', 'clear_pool', 'add_store'] +
                              (['reopen', 'rerun_larger', 'abandon_open', 'abandon_open',
                                'close_open'] if on_disk else []))
         if forced_ops:
@@ -227,6 +228,53 @@ def _run(tape, out, elfi, root):
             continue
         if op == 'replace_node' and family == 'smc':
             op = 'rerun_larger'
+        if op in ('remove_last_batch', 'clear_pool'):
+            # pool-level deletion: the next run must simply simulate those batches again
+            if not pool.has_context or not any(held.values()) or \
+                    any(st_ is None for st_ in pool.stores.values()):
+                # (remove_batch / clear raise on a listed store that was never created - a node
+                # outside every compiled net so far; observed, not judged: C05 is silent on it)
+                continue
+            if op == 'clear_pool' and on_disk and not all(held.get(s_, 0) for s_ in pool.stores):
+                # (clearing an on-disk store that was never written raises 'must be initialized
+                # before it can be truncated'; C06 speaks about initialised stores only)
+                continue
+            saved_held[0] = None
+            if op == 'clear_pool':
+                pool.clear()
+                held = {s_: 0 for s_ in held}
+            else:
+                last = max(held.values()) - 1
+                pool.remove_batch(last)
+                held = {s_: (n_ - 1 if n_ - 1 == last else n_) for s_, n_ in held.items()}
+            held_max = max(held.values()) if held else 0
+            for s_ in pool.stores:
+                n_ = len(pool.stores[s_]) if pool.stores[s_] is not None else 0
+                if n_ != held.get(s_, 0) and not control:
+                    out.violate('pool-content', 'batch-count-after-' + op, store=s_, holds=n_,
+                                expected=held.get(s_, 0), step=step)
+                    return
+            out.ev('P %s' % op)
+            out.sample['history'].append(op)
+            abstract.append((op,))
+            out.probes['pool_' + op] += 1
+            continue
+        if op == 'add_store':
+            # a store for one more node of the stated form is added to a pool in use; it starts
+            # empty while the others hold batches
+            cands = [x for x in ['sim'] + sorted(descendants(cur_spec, 'sim'))
+                     if x not in pool.stores]
+            if not cands or not pool.has_context:
+                continue
+            node_ = tape.choice('add_store_node', cands)
+            saved_held[0] = None
+            pool.add_store(node_)
+            held[node_] = 0
+            out.ev('P add_store %s' % node_)
+            out.sample['history'].append('add_store(%s)' % node_)
+            abstract.append(('add_store',))
+            out.probes['pool_add_store'] += 1
+            continue
         if op == 'replace_node':
             cands = [n for n in cur_spec['sums']] + [cur_spec['disc']]
             target = tape.choice('replace', cands)
@@ -318,7 +366,9 @@ def _run(tape, out, elfi, root):
                 pool = elfi.ArrayPool.open(loc['name'], prefix=loc['prefix'])
                 after = {s: len(pool.stores[s]) if pool.stores[s] is not None else 0
                          for s in pool.stores}
-                if after != before:
+                # (an on-disk store that was added but never written cannot be unpickled - its
+                # file is empty - and is dropped by open(); it held no batches before or after)
+                if {k: v for k, v in after.items() if v} != {k: v for k, v in before.items() if v}:
                     out.violate('reopen-equal', '', before=before, after=after)
                     return
                 out.probes['pool_close_open'] += 1
@@ -415,7 +465,13 @@ def _run(tape, out, elfi, root):
         if consumed_idx and max(consumed_idx) + 1 > held_max and held_max > 0:
             out.probes['rerun_needs_more_batches'] += 1
         params_stored = all(p in stored_now for p in cur_spec['params'])
-        f3_shape = params_stored and 'sim' not in stored_now
+        # F3's structural predicate, per batch: the pool supplied ALL parameters of a batch but
+        # not the simulator (the simulator has no store, or - after add_store('sim') on a pool
+        # in use - its store does not reach that far yet)
+        f3_shape = params_stored and any(
+            info['held'] and 'sim' not in info['held'] and
+            all(p in info['held'] for p in cur_spec['params'])
+            for info in run_.req_info.values())
         # ---- same-as-pool-free
         if res is None or ref_res is None:
             ea = type(ref_run.errors[-1]).__name__ if ref_res is None and ref_run.errors else None
